@@ -58,9 +58,9 @@ NeedsChange == force \/ file = Absent
 Unlock == /\ pc = "unlock"
           /\ IF mem = dev
              THEN /\ pc' = IF NeedsChange THEN "gen" ELSE "serve"
-                  /\ Emit([E0("unlock") EXCEPT !.ok = "t"], file, dev)
+                  /\ Emit([E0("unlock") EXCEPT !.ok = "t", !.pin = mem], file, dev)
              ELSE /\ pc' = IF recon THEN "serve" ELSE "stopping"    \* HSM2ProtocolError: fatal at start-up, a -905 later
-                  /\ Emit([E0("unlock") EXCEPT !.ok = "f"], file, dev)
+                  /\ Emit([E0("unlock") EXCEPT !.ok = "f", !.pin = mem], file, dev)
           /\ H([a |-> "unlock"])
           /\ UNCHANGED <<file, dev, mem, newp, force, lives, faults, crashes, fresh, recon, reboots>>
 
